@@ -400,8 +400,8 @@ class TriangularOverlappingFilterBank(LinearFilterBank):
         right = self._vertices[filt_idx + 2]
         left_idx = int(np.ceil(width * left / self._rate))
         right_idx = int(width * right / self._rate)
-        assert self._rate * (left_idx - 1) / width <= left
-        assert self._rate * (right_idx + 1) / width >= right, width
+        assert left_idx - 1 <= width * left / self._rate
+        assert right_idx + 1 >= width * right / self._rate, width
         dft_size = width
         if half:
             if width % 2:
@@ -428,8 +428,8 @@ class TriangularOverlappingFilterBank(LinearFilterBank):
         right = self._vertices[filt_idx + 2]
         left_idx = int(np.ceil(width * left / self._rate))
         right_idx = int(width * right / self._rate)
-        assert self._rate * (left_idx - 1) / width <= left
-        assert self._rate * (right_idx + 1) / width >= right, width
+        assert left_idx - 1 <= width * left / self._rate
+        assert right_idx + 1 >= width * right / self._rate, width
         res = np.zeros(1 + right_idx - left_idx, dtype=np.float64)
         for idx in range(left_idx, min(width, right_idx + 1)):
             hz = self._rate * idx / width
@@ -578,8 +578,8 @@ class Fbank(LinearFilterBank):
         right_mel = scaling_function.hertz_to_scale(right_hz)
         left_idx = int(np.ceil(width * left_hz / self._rate))
         right_idx = int(width * right_hz / self._rate)
-        assert self._rate * (left_idx - 1) / width <= left_hz
-        assert self._rate * (right_idx + 1) / width >= right_hz, width
+        assert left_idx - 1 <= width * left_hz / self._rate
+        assert right_idx + 1 >= width * right_hz / self._rate, width
         dft_size = width
         if half:
             if width % 2:
@@ -611,8 +611,8 @@ class Fbank(LinearFilterBank):
         right_mel = scaling_function.hertz_to_scale(right_hz)
         left_idx = int(np.ceil(width * left_hz / self._rate))
         right_idx = int(width * right_hz / self._rate)
-        assert self._rate * (left_idx - 1) / width <= left_hz
-        assert self._rate * (right_idx + 1) / width >= right_hz, width
+        assert left_idx - 1 <= width * left_hz / self._rate
+        assert right_idx + 1 >= width * right_hz / self._rate, width
         res = np.zeros(min(width, right_idx + 1) - left_idx, dtype=np.float64)
         for idx in range(left_idx, min(width, right_idx + 1)):
             hz = self._rate * idx / width
